@@ -100,6 +100,22 @@ pub fn universe_a_lifted(sc: &uni::Scratch, variant: usize, lift: usize) -> Tree
 	tb.add_invalid("i3:never-created", Some(m4), &BlockSpec::with(83, vec![tx_n]));
 	// output duplicating a commitment that is unspent there: X while X is unspent (on m5)
 	tb.add_invalid("i4:dup-unspent-X-on-m5", Some(m5), &BlockSpec::with(84, vec![tx4.clone()]));
+	// output duplicating an unspent commitment under OTHER features: a plain output with the value and key of the
+	// unspent coinbase of block 3 (spends coinbases 1 and 2)
+	{
+		use grin_core::core::KernelFeatures;
+		use grin_core::libtx::{build, ProofBuilder};
+		let pb = ProofBuilder::new(&kc);
+		let tx_d = uni::tx(
+			&kc,
+			KernelFeatures::Plain { fee: (M as u32).into() },
+			&[build::coinbase_input(REWARD, uni::kid(1)), build::coinbase_input(REWARD, uni::kid(2)), build::output(REWARD, uni::kid(3)), build::output(REWARD - M, uni::kid(105))],
+			&pb,
+			7,
+		)
+		.expect("tx duplicating a coinbase commitment");
+		tb.add_invalid("i7:dup-unspent-coinbase-as-plain", Some(m4), &BlockSpec::with(87, vec![tx_d]));
+	}
 	// double spend inside one block: cb1 -> X and cb1 -> Z in the same body
 	{
 		let i = tb.add_invalid("i6:double-spend-in-block", Some(m4), &BlockSpec::with(86, vec![tx1.clone()]));
